@@ -535,6 +535,8 @@ class TypeEnv:
                 return ty("float")
             if fname == "slice":
                 return ty("slice")
+            if fname == "range":
+                return Ty(frozenset({"range"}), ty("int"))
             if fname in ("bool", "isinstance", "hasattr", "callable", "any", "all"):
                 return ty("bool")
             if fname in ("list", "tuple", "sorted", "set", "frozenset", "iter", "reversed", "deque") and e.args:
